@@ -403,7 +403,7 @@ fn run_case(c: &Case, facts: &mut Facts) -> Result<u64, String> {
 }
 
 fn policies() -> Vec<Pol> {
-    vec![Pol::Drop, Pol::Q(None), Pol::Q(Some(0)), Pol::Q(Some(163)), Pol::Q(Some(164)), Pol::Q(Some(164 + 165)), Pol::Q(Some(1064 + 164))]
+    vec![Pol::Drop, Pol::Q(None), Pol::Q(Some(0)), Pol::Q(Some(163)), Pol::Q(Some(164)), Pol::Q(Some(164 + 165)), Pol::Q(Some(1000 + 164))]
 }
 
 impl Property for C07 {
@@ -412,8 +412,8 @@ impl Property for C07 {
     }
     fn rule(&self, tier: Tier) -> String {
         format!(
-            "bitrate in {{0, 8 kbit/s, 1 Mbit/s, 2e12 (sub-ns transmission)}} x latency {{0, 1 ms}} x jitter {{0, 1 ms}} x policy {{Drop, Queue(None), Queue(0), Queue(163), Queue(164), Queue(329), Queue(1228)}} \
-             x every traffic pattern of 1..={} messages with body sizes {{0, 100, 1000}} B and gaps {{0 = burst in one handler, tx/2, tx, tx+1ns, 3tx}} (tx = transmission time of a 164 B message), plus bursts of 9 / 33 / 40 / 70 messages offered by one handler call that arms a later self message before and an earlier one after the burst, plus a 2-hop variant through a forwarding module, plus a duplex variant in which the receiver offers the same traffic at the same instants in the opposite direction over the one connection (each direction must behave as a channel of its own); \
+            "bitrate in {{0, 8 kbit/s, 1 Mbit/s, 2e12 (sub-ns transmission)}} x latency {{0, 1 ms}} x jitter {{0, 1 ms}} x policy {{Drop, Queue(None), Queue(0), Queue(163), Queue(164), Queue(329), Queue(1164)}} \
+             x every traffic pattern of 1..={} messages with body sizes {{0, 100, 936}} B (lengths 64, 164 and 1000 B: at 8 kbit/s the last one takes exactly one second) and gaps {{0 = burst in one handler, tx/2, tx, tx+1ns, 3tx}} (tx = transmission time of a 164 B message), plus bursts of 9 / 33 / 40 / 70 messages offered by one handler call that arms a later self message before and an earlier one after the burst, plus a 2-hop variant through a forwarding module, plus a duplex variant in which the receiver offers the same traffic at the same instants in the opposite direction over the one connection (each direction must behave as a channel of its own); \
              oracle: reference channel (each message delivered exactly once at start + size*8/bitrate + latency + [0, jitter) or dropped by the stated rule; FIFO start at the idle instant; order preserved with zero jitter; no body alive after the run; is_busy / transmission_finish_time sampled at every sender tick); \
              same-instant ties (offer exactly when the channel goes idle; busy sample exactly at an interval boundary) accept both resolutions; non-trivial = pattern in which a message meets a busy channel",
             tier.pick(4, 5)
@@ -451,7 +451,7 @@ impl Property for C07 {
         }
         let maxm = ctx.tier.pick(4, 5);
         let bitrates = [0u64, 8_000, 1_000_000, 2_000_000_000_000];
-        let sizes = [0usize, 100, 1000];
+        let sizes = [0usize, 100, 936];
         for &br in &bitrates {
             let tx0 = tx_ns(64 + 100, br).max(2) as u64;
             let gaps = [0u64, tx0 / 2, tx0, tx0 + 1, 3 * tx0];
